@@ -1105,7 +1105,13 @@ func (ce *CEnv) call(x *ECall) Val {
 		}
 		ks := fv.mapKeys(u)
 		key := ce.coerce(arg(1), u.Key())
-		return boolVal("(select (select " + fv.heapGet(ce.st, ks[0]) + " " + v.S + ") " + key.S + ")")
+		hasT := "(select (select " + fv.heapGet(ce.st, ks[0]) + " " + v.S + ") " + key.S + ")"
+		if ce.qdepth == 0 && len(ce.bound) == 0 {
+			// map representation facts: a key in the domain => the map is not nil and its length is at least 1
+			card := "(select " + fv.heapGet(ce.st, ks[2]) + " " + v.S + ")"
+			fv.q.assume("(=> " + hasT + " (and (not (= " + v.S + " 0)) " + fv.mode.cmp(">=", card, fv.mode.idx(1), true) + "))")
+		}
+		return boolVal(hasT)
 	case "iface":
 		// iface(x): x converted to interface{}
 		v := arg(0)
